@@ -1033,8 +1033,12 @@ impl TypedExpr {
                             let result_is_signed = result[0];
                             let not_all_bits_except_msb_are_zero =
                                 circuit.push_not(all_bits_except_msb_are_zero);
-                            let too_large_for_signed_representation = circuit
-                                .push_and(result_is_signed, not_all_bits_except_msb_are_zero);
+                            // 2^(bits - 1) is only representable as a negative result:
+                            let not_neg_min = circuit.push_not(is_result_neg);
+                            let not_representable =
+                                circuit.push_or(not_all_bits_except_msb_are_zero, not_neg_min);
+                            let too_large_for_signed_representation =
+                                circuit.push_and(result_is_signed, not_representable);
                             overflow =
                                 circuit.push_or(overflow, too_large_for_signed_representation);
                             let result_negated = circuit.push_negation_circuit(&result);
